@@ -97,7 +97,7 @@ func NewLink(h Hooks) *Link {
 				return
 			}
 			msg := append([]byte(nil), b.Buf...)
-			l.log(Event{Dir: "c2s", I: i, At: time.Now(), Data: msg})
+			l.log(Event{Dir: "c2s", I: i, At: time.Now(), Data: append([]byte(nil), msg...)}) // own copy: msg is reused as the relay buffer
 			act := Forward
 			if h.C2S != nil {
 				msg, act = h.C2S(i, msg)
@@ -116,7 +116,7 @@ func NewLink(h Hooks) *Link {
 				return
 			}
 			msg = append([]byte(nil), b.Buf...)
-			l.log(Event{Dir: "s2c", I: i, At: time.Now(), Data: msg})
+			l.log(Event{Dir: "s2c", I: i, At: time.Now(), Data: append([]byte(nil), msg...)})
 			act = Forward
 			if h.S2C != nil {
 				msg, act = h.S2C(i, msg)
